@@ -15,8 +15,11 @@ def _pt(x):
     return Point(np.array(x, dtype=np.double), [])
 
 
-def calc(problem, x):
-    return float(problem.Calculate(_pt(x), _fv()).value)
+def calc(problem, x, constraint=None):
+    if constraint is None:
+        return float(problem.Calculate(_pt(x), _fv()).value)
+    from iOpt.trial import FunctionValue, FunctionType
+    return float(problem.Calculate(_pt(x), FunctionValue(FunctionType.CONSTRAINT, constraint)).value)
 
 
 def gkls_tables(p):
@@ -47,6 +50,7 @@ def family_members(tier, r):
         mem += [("gkls", (d, k)) for k in ks]
     mem += [("rastrigin", (n,)) for n in (range(1, 13) if full else (1, 2, 3, 7))]
     mem += [("xsquared", (n,)) for n in (range(1, 13) if full else (1, 2, 5))]
+    mem += [("stronginc3", ())]
     return mem
 
 
@@ -123,6 +127,14 @@ def run(tier, r, npts=None):
     lines, expect, meta = [], [], []
     for fam, args in mem:
         p = construct(fam, args)
+        if fam == "stronginc3":
+            # objective and the three constraints; the model is the translation of the current source text
+            for x in points_for(fam, args, p, r, npts * 6):
+                for which, con in (("obj", None), ("c0", 0), ("c1", 1), ("c2", 2)):
+                    lines.append(f"pb.s3 {which} " + fs2h(x))
+                    expect.append(f2h(calc(p, x, con)))
+                    meta.append((fam, (which,), x))
+            continue
         for x in points_for(fam, args, p, r, npts):
             lines.append(model_line(fam, args, p, x))
             expect.append(f2h(calc(p, x)))
